@@ -50,6 +50,18 @@ def plan(ctx):
             param = (param[0], rng.randint(1, 12))
         out.append({"case": c, "mode": mode, "param": param, "f": rng.choice([1, 1, 2, 3]), "m": rng.choice([1, 2, 3]), "async": rng.random() < 0.7,
                     "rounds": rng.choice([1, 1, 2, 3]) if not quick else rng.choice([1, 1, 2]), "seed": sub})
+    # directed: the solve ends ON ITS ITERATION LIMIT at a multiple of the frequency, so the unconditional final save
+    # repeats a step that is already committed; retention is larger than the number of saves, so no deletion is ever
+    # legitimate - the child is killed at the first deletion inside a committed step directory (never, on a tree
+    # that leaves completed checkpoints alone)
+    for i in range(6 if quick else 60):
+        sub = ctx.rng.randrange(10 ** 9)
+        rng = random.Random(sub)
+        c = gen_case(rng, ["vi", "rvi", "pvi", "savi"][i % 4])
+        f = rng.choice([1, 2, 3])
+        trig = (r"DELETE,ISDIR .*/ck/\d+$", 1) if i % 4 < 2 else (r"DELETE.* .*/ck/\d+/", rng.randint(1, 10))
+        out.append({"case": c, "mode": "inotify", "param": trig, "f": f, "m": 8, "async": i % 2 == 0, "rounds": 1, "seed": sub,
+                    "total": f * rng.choice([1, 2]), "directed": "final-save-repeats-committed-step"})
     return out
 
 
@@ -58,7 +70,8 @@ def one_experiment(ctx, p, idx):
     d = str(ctx.scratch / f"c11_{idx}" / "ck")
     cfg = runs.config_of(c)
     cfg.update({"checkpoint_dir": d, "checkpoint_frequency": p["f"], "max_checkpoints": p["m"], "enable_async_checkpointing": p["async"]})
-    job = {"problem": c["spec"], "solver": c["solver"], "config": cfg, "total": TOTAL}
+    total = p.get("total", TOTAL)
+    job = {"problem": c["spec"], "solver": c["solver"], "config": cfg, "total": total}
     rng = random.Random(p["seed"])
     rounds = []
     restore_from = None
@@ -76,7 +89,7 @@ def one_experiment(ctx, p, idx):
             break
     # final: restore and continue to the end without being killed
     fin = core.run_worker(ctx, [{"kind": "ckpt_restore", "solver": c["solver"], "dir": d, "route": "load", "problem": c["spec"],
-                                 "config": dict(cfg, checkpoint_dir=d + "_cont", checkpoint_frequency=0), "ops": [["solve_until", TOTAL]]}])[0]
+                                 "config": dict(cfg, checkpoint_dir=d + "_cont", checkpoint_frequency=0), "ops": [["solve_until", total]]}])[0]
     return {"rounds": rounds, "final": fin, "dir": d}
 
 
@@ -88,6 +101,7 @@ def trajectory(c, upto):
 
 def oracle(p, e):
     c = p["case"]
+    TOTAL = p.get("total", globals()["TOTAL"])
     traj, guard = trajectory(c, TOTAL)
     if not guard["ok"]:
         return None  # outside the exact regime (cannot happen for these families; guard for safety)
